@@ -168,7 +168,7 @@ def _event_op(qualname, status, command, timeout_of, refused_exc):
         c.ensures(
             "post.event_wait_bounded",
             lambda fx: all(
-                [q[2][0] for q in fx[: fx.index(r)] if q[0] == "timeout.armed"] == [timeout_of]
+                [q[2][0] for q in fx[: pos(fx, r)] if q[0] == "timeout.armed"] == [timeout_of]
                 for r in awaits_of(fx) if r[1] == "future"
             ),
             on="any",
@@ -325,7 +325,7 @@ def _(c):
     c.ensures(
         "post.event_wait_bounded",
         lambda fx: all(
-            [q[2][0] for q in fx[: fx.index(r)] if q[0] == "timeout.armed"] == [app.NETWORK_UP_TIMEOUT_S]
+            [q[2][0] for q in fx[: pos(fx, r)] if q[0] == "timeout.armed"] == [app.NETWORK_UP_TIMEOUT_S]
             for r in awaits_of(fx) if r[1] == "future"
         ),
         on="any",
@@ -336,3 +336,8 @@ def _(c):
         on="any",
     )
     c.modifies()
+
+
+def pos(fx, r):
+    """position of the record r itself (identity, not equality) in the effects list"""
+    return [i for i, q in enumerate(fx) if q is r][0]
